@@ -71,13 +71,104 @@ func probe() {
 		}
 		emit(r.line()...)
 	}
+	// 1a. the caller-pod checks of the gate, each as the ONLY thing that refuses: empty UID presented for
+	// a valid pod name; the named pod runs as another account than the (trusted) one claimed
+	header("caller-pod-uid-and-account")
+	emit("ca", "plug", "86400", "86400", "1", "3600", "86400")
+	pods1a := append(append([]podSpec{}, pods...), podSpec{name: "ztx", ns: "istio-system", uid: "u9", sa: "other", node: "n1"})
+	emit("na", wire.EncList([]string{"istio-system/ztunnel"}), "1", "c1", encPods(pods1a))
+	for i := 0; i < 4; i++ {
+		r := base()
+		r.imp = "s:" + wire.Enc("spiffe://cluster.local/ns/a/sa/b")
+		switch i {
+		case 0:
+			r.outs[0].kube.PodUID = "" // no UID (a TokenReview without the pod-uid extra)
+		case 1:
+			r.outs[0].kube = kinfo("ztx", "istio-system", "u9", "ztunnel") // pod ztx runs as `other`
+		case 2:
+			r.outs[0].kube = kinfo("ztx", "istio-system", "u9", "other") // ... and `other` is not trusted
+		case 3: // all in place
+		}
+		emit(r.line()...)
+	}
+	{
+		// the same through the real kube authenticator: the API server reports no pod UID
+		rev := reviewSpec{authenticated: true, groups: []string{"system:serviceaccounts", "system:authenticated"},
+			username: "system:serviceaccount:istio-system:ztunnel", podName: "=zt", podUID: "-"}
+		for _, uid := range []string{"-", "=", "=u1"} {
+			rev.podUID = uid
+			a := reqaSpec{spec: kubeSpecTokens("cluster.local", "c1", nil, "nil", "c1", "bearer", "node-proxy-token", []string{"istio-ca"}, rev),
+				req: reqSpec{csr: csrSpec{form: "ok", key: "ec256-a"}, ttl: 600, imp: "s:" + wire.Enc("spiffe://cluster.local/ns/a/sa/b"), signer: "-", cluster: "c1"}}
+			emit(a.line()...)
+		}
+		rev.podUID, rev.podName = "=u9", "=ztx"
+		a := reqaSpec{spec: kubeSpecTokens("cluster.local", "c1", nil, "nil", "c1", "bearer", "node-proxy-token", []string{"istio-ca"}, rev),
+			req: reqSpec{csr: csrSpec{form: "ok", key: "ec256-a"}, ttl: 600, imp: "s:" + wire.Enc("spiffe://cluster.local/ns/a/sa/b"), signer: "-", cluster: "c1"}}
+		emit(a.line()...)
+	}
+	// 1a'. a pod world that changes between requests (private world): delete / add / re-create pods,
+	// Succeeded and Pending pods (they pass the informer's selector), a cluster update whose new
+	// authorizer has not synced (the old one answers), its sync, a second update before the first synced
+	// (fail closed), deletion during a pending update (finding, fixed by 789ce3b: no authorizer any more),
+	// re-adding the cluster
+	header("dynamic-pods-and-clusters")
+	emit("ca", "plug", "86400", "86400", "1", "3600", "86400")
+	emit("nap", wire.EncList([]string{"istio-system/ztunnel"}), "1", "c1", encPods(pods))
+	ask := func(uid, ns, sa string) {
+		r := base()
+		r.outs[0].kube.PodUID = uid
+		r.imp = "s:" + wire.Enc("spiffe://cluster.local/ns/"+ns+"/sa/"+sa)
+		emit(r.line()...)
+	}
+	pf := func(p podSpec) string { return wire.Enc(encFields(p.name, p.ns, p.uid, p.sa, p.node, p.phase)) }
+	ask("u1", "a", "b")
+	emit("pod", "del", "c1", "a", "p1")
+	ask("u1", "a", "b")
+	emit("pod", "add", "c1", pf(podSpec{name: "p1", ns: "a", uid: "u20", sa: "b", node: "n1", phase: "S"}))
+	ask("u1", "a", "b") // a completed (Succeeded) pod still authorizes: recorded observation
+	emit("pod", "add", "c1", pf(podSpec{name: "p5", ns: "e", uid: "u21", sa: "f", node: "n1", phase: "P"}))
+	ask("u1", "e", "f")
+	emit("pod", "del", "c1", "istio-system", "zt")
+	ask("u1", "a", "b")
+	emit("pod", "add", "c1", pf(podSpec{name: "zt", ns: "istio-system", uid: "u22", sa: "ztunnel", node: "n1"}))
+	ask("u1", "a", "b")  // the UID of the previous incarnation
+	ask("u22", "a", "b") // the new one
+	ask("", "a", "b")
+	newPods := []podSpec{{name: "zt", ns: "istio-system", uid: "u30", sa: "ztunnel", node: "n1"}, {name: "q1", ns: "g", uid: "u31", sa: "h", node: "n1"}}
+	emit("cl", "upd", "c1", encPods(newPods), "0")
+	ask("u22", "a", "b") // old authorizer still answers
+	ask("u30", "g", "h")
+	emit("cl", "sync", "c1")
+	ask("u22", "a", "b")
+	ask("u30", "g", "h")
+	emit("cl", "upd", "c1", encPods(pods), "0")
+	emit("cl", "upd", "c1", encPods(newPods), "0")
+	ask("u30", "g", "h") // second rotation before the first synced: refused until it syncs
+	emit("cl", "sync", "c1")
+	ask("u30", "g", "h")
+	emit("cl", "upd", "c1", encPods(pods), "0")
+	emit("cl", "del", "c1")
+	ask("u30", "g", "h") // deleted cluster: no authorizer (before 789ce3b the old one kept answering)
+	emit("cl", "add", "c1", encPods(pods))
+	ask("u30", "g", "h")
+	ask("u1", "a", "b")
+	emit("cl", "upd", "c2", encPods(newPods), "0") // update for an ID that was never added
+	{
+		r := base()
+		r.outs[0].kube.PodUID = "u30"
+		r.cluster = "c2"
+		r.imp = "s:" + wire.Enc("spiffe://cluster.local/ns/g/sa/h")
+		emit(r.line()...)
+		emit("cl", "sync", "c2")
+		emit(r.line()...)
+	}
 	// 1b. pods the {service account, node} index must not contain: unscheduled pods (NodeName guard:
 	// an unscheduled trusted caller asks for an unscheduled pod's identity), pods without service
 	// account, and Failed pods (filtered by the informer's field selector)
 	header("unindexed-pods")
 	emit("ca", "plug", "86400", "86400", "1", "3600", "86400")
 	pods2 := []podSpec{{name: "zt", ns: "istio-system", uid: "u1", sa: "ztunnel", node: ""}, {name: "p1", ns: "a", uid: "u2", sa: "b", node: ""},
-		{name: "zt2", ns: "istio-system", uid: "u3", sa: "ztunnel", node: "n2"}, {name: "p2", ns: "c", uid: "u4", sa: "d", node: "n2", failed: true},
+		{name: "zt2", ns: "istio-system", uid: "u3", sa: "ztunnel", node: "n2"}, {name: "p2", ns: "c", uid: "u4", sa: "d", node: "n2", phase: "F"},
 		{name: "p3", ns: "c", uid: "u5", sa: "", node: "n2"}, {name: "p4", ns: "a", uid: "u6", sa: "ok", node: "n2"}}
 	emit("na", wire.EncList([]string{"istio-system/ztunnel"}), "1", "c1", encPods(pods2))
 	for i, imp := range []string{"spiffe://cluster.local/ns/a/sa/b", "spiffe://cluster.local/ns/c/sa/d", "spiffe://cluster.local/ns/c/sa/", "spiffe://cluster.local/ns/a/sa/ok"} {
